@@ -270,12 +270,7 @@ pub fn check_case(t: &mut Tctx, which: &str, shape: &Shape, val: &Val, shape_fp:
         // from_eio
         t.st.count("c01_dec_from_eio");
         let mut scratch = vec![0u8; n + 8];
-        let r = catch(|| {
-            with_shape(shape, || {
-                let reader: &[u8] = &input[..];
-                postcard::from_eio::<DynVal, _>((reader, &mut scratch[..])).map(|(v, (rd, _rest))| (v, rd.len()))
-            })
-        });
+        let r = catch(|| super::io::eio_read_whole(shape, &input, &mut scratch[..]).map(|(v, delivered)| (DynVal(v), input.len() - delivered)));
         match r {
             Ok(Ok((DynVal(v), left))) => {
                 if v != *val || left != tail.len() {
@@ -301,17 +296,7 @@ pub fn check_case(t: &mut Tctx, which: &str, shape: &Shape, val: &Val, shape_fp:
 }
 
 fn eio_write(val: &Val) -> postcard::Result<Vec<u8>> {
-    // embedded-io implements Write for &mut [u8]; use a fixed buffer and measure what was consumed
-    let need = spec::encode(val).len();
-    let mut buf = vec![0u8; need + 4];
-    let total = buf.len();
-    let rest_len = {
-        let w: &mut [u8] = &mut buf[..];
-        let w = postcard::to_eio(val, w)?;
-        w.len()
-    };
-    buf.truncate(total - rest_len);
-    Ok(buf)
+    super::io::eio_write_whole(val)
 }
 
 // ------------------------------------------------------------------ concrete corpus
